@@ -2,6 +2,7 @@
   `open_prefixes` of `DocumentBuilder` (`Builder.openPrefixes`): the stack of the prefixes written
   in the start tags of the open elements.  What each token does to it.
 -/
+import XotModel.Lemmas.ParseQName
 import XotModel.Model.Parse
 
 namespace XotModel
@@ -123,9 +124,10 @@ theorem openPrefixes_step {b b' : Builder} {t : Token} (h : b.step t = .ok b') :
     | .elementEnd (.close p _) _ =>
       (∃ n, b.cur.value = .element n) → b.openPrefixes = p.text :: b'.openPrefixes
     | _ => b'.openPrefixes = b.openPrefixes := by
+  replace h := Builder.step_ok_core h
   cases t with
   | «attribute» pfx loc value sp =>
-    simp only [Builder.step] at h
+    simp only [Builder.stepCore] at h
     split at h
     · exact prefix_openPrefixes h
     · split at h
@@ -134,19 +136,19 @@ theorem openPrefixes_step {b b' : Builder} {t : Token} (h : b.step t = .ok b') :
   | text t => exact text_openPrefixes h
   | cdata t sp => exact cdata_openPrefixes h
   | elementStart pfx loc sp =>
-    simp only [Builder.step, Step.ok.injEq] at h; subst h; rfl
+    simp only [Builder.stepCore, Step.ok.injEq] at h; subst h; rfl
   | elementEnd e sp =>
     cases e with
     | «open» =>
-      simp only [Builder.step] at h
+      simp only [Builder.stepCore] at h
       obtain ⟨eb, heb⟩ := openElement_eb h
       exact ⟨eb, heb, (openElement_openPrefixes heb h).1⟩
     | close p l =>
-      simp only [Builder.step] at h
+      simp only [Builder.stepCore] at h
       intro ⟨n, hn⟩
       exact closeElement_openPrefixes hn h
     | empty =>
-      simp only [Builder.step] at h
+      simp only [Builder.stepCore] at h
       split at h
       · rename_i b1 hb1
         obtain ⟨eb, heb⟩ := openElement_eb hb1
@@ -156,15 +158,15 @@ theorem openPrefixes_step {b b' : Builder} {t : Token} (h : b.step t = .ok b') :
       · rename_i hne
         exact absurd h (by intro hh; exact hne _ hh)
   | comment t sp =>
-    simp only [Builder.step, Step.ok.injEq] at h; subst h; rfl
+    simp only [Builder.stepCore, Step.ok.injEq] at h; subst h; rfl
   | pi target content sp =>
-    simp only [Builder.step] at h
+    simp only [Builder.stepCore] at h
     split at h
     · cases h
     · simp only [Step.ok.injEq] at h; subst h
       simp only [Builder.processingInstruction, Builder.addLeaf]
   | declaration v e s sp =>
-    simp only [Builder.step] at h
+    simp only [Builder.stepCore] at h
     split at h
     · cases h
     · simp only [Step.ok.injEq] at h; subst h; rfl
